@@ -617,8 +617,17 @@ class CallsMixin:
         if name == "struct.unpack":
             fmt, buf = args[0], args[1]
             if fmt.k == "gamma":
-                return gamma(fmt.a[0], self.call_builtin(name, [fmt.a[1], buf], kw, env, node),
-                             self.call_builtin(name, [fmt.a[2], buf], kw, env, node))
+                # each alternative of the format is used exactly under its own condition (the read log needs it)
+                e1, e2 = env.clone(), env.clone()
+                e1.add_fact(fmt.a[0])
+                e2.add_fact(un("not", fmt.a[0]))
+                r1 = self.call_builtin(name, [fmt.a[1], buf], kw, e1, node) if not e1.dead and not is_const(fmt.a[1], None) else None
+                r2 = self.call_builtin(name, [fmt.a[2], buf], kw, e2, node) if not e2.dead and not is_const(fmt.a[2], None) else None
+                if r1 is None:
+                    return r2 if r2 is not None else T("tuple", (NONE,))
+                if r2 is None:
+                    return r1
+                return gamma(fmt.a[0], r1, r2)
             if fmt.k != "const":
                 self.unsupported("struct.unpack with non-constant format", node)
             n = struct.calcsize(fmt.a[0])
